@@ -39,10 +39,43 @@ def judge(prop, ref, res, where):
                         % (cubes.first_difference(ref, res.out), sess.switches, sess.steps))
 
 
-def execute_one(w, poolsize, spec, ref, stats, log, sched_seed=None, script=None, est=None):
+PASTS = ("fresh", "fresh", "fresh", "served-serial", "served-pooled", "interrupted-serial", "interrupted-pooled")
+
+
+def with_past(w, poolsize, past, seed):
+    """A cube and aggregate objects that have already been through one call (the property speaks of cubes,
+    not of brand-new cube objects): served normally, or interrupted by the caller's callback."""
+    from .interrupt import Injector, Interrupt
+
+    cube = cubes.build_cube(w)
+    cube, _how = poolrun.engage(w, cube, poolsize)
+    aggs = cubes.build_aggs(w)
+    if past == "fresh":
+        return cube, aggs
+    k = cubes.scaffold_size(w)
+    r = random.Random(seed)
+    inj = Injector(at_counts=[r.randrange(k)], at_items=[r.randrange(k)], exc_cls=Interrupt) if past.startswith("interrupted") else None
+    if past.endswith("pooled"):
+        poolrun.pooled_eval(w, poolsize, {"strategy": "rtc"}, rng=random.Random(seed), cube=cube, aggs=aggs, check_interrupt=inj)
+    else:
+        cube.parallel = False
+        cube.check_interrupt = inj
+        try:
+            cubes.evaluate(cube, aggs)
+        except Exception:
+            pass
+    cube.check_interrupt = None
+    cube.parallel = True
+    return cube, aggs
+
+
+def execute_one(w, poolsize, spec, ref, stats, log, sched_seed=None, script=None, est=None, past="fresh"):
     rng = random.Random(sched_seed) if script is None else None
     cap = 5_000_000 if not est else max(200_000, 50 * est)
-    res = poolrun.pooled_eval(w, poolsize, spec, rng=rng, script=script, step_cap=cap)
+    cube, aggs = with_past(w, poolsize, past, (sched_seed or 0) ^ 0xA57)
+    res = poolrun.pooled_eval(w, poolsize, spec, rng=rng, script=script, step_cap=cap, cube=cube, aggs=aggs)
+    if stats is not None:
+        stats.count("past_" + past)
     sess = res.session
     if stats is not None:
         stats.count("pooled_evaluations")
@@ -93,11 +126,12 @@ def run(base_seed, idx, stats, opts):
             spec = {"strategy": "lockstep", "q": 1, "ladder": lr.randint(1, 13)}
         else:
             spec = sched.make_spec(random.Random(sched_seed ^ 0x5EED), est or 1000)
+        past = "fresh" if k == 0 else random.Random(sched_seed ^ 0x9A57).choice(PASTS)
         try:
-            sess = execute_one(w, poolsize, spec, ref, stats, log, sched_seed=sched_seed, est=est)
+            sess = execute_one(w, poolsize, spec, ref, stats, log, sched_seed=sched_seed, est=est, past=past)
         except Violation as v:
             # re-run to capture the explicit schedule (decisions) for the replay file
-            v.extra["case"] = capture_case(w, poolsize, spec, sched_seed, est)
+            v.extra["case"] = capture_case(w, poolsize, spec, sched_seed, est, past)
             raise
         if k == 0:
             est = sess.steps
@@ -111,18 +145,20 @@ def run(base_seed, idx, stats, opts):
     return log.hexdigest()
 
 
-def capture_case(w, poolsize, spec, sched_seed, est):
+def capture_case(w, poolsize, spec, sched_seed, est, past="fresh"):
     cap = 5_000_000 if not est else max(200_000, 50 * est)
-    res = poolrun.pooled_eval(w, poolsize, spec, rng=random.Random(sched_seed), step_cap=cap)
-    return {"workload": w, "poolsize": poolsize, "spec": spec, "sched_seed": sched_seed,
+    cube, aggs = with_past(w, poolsize, past, (sched_seed or 0) ^ 0xA57)
+    res = poolrun.pooled_eval(w, poolsize, spec, rng=random.Random(sched_seed), step_cap=cap, cube=cube, aggs=aggs)
+    return {"workload": w, "poolsize": poolsize, "spec": spec, "sched_seed": sched_seed, "past": past,
             "step_cap": cap, "decisions": res.session.decisions}
 
 
 def replay(case):
     w = case["workload"]
     ref = serial_reference(w)
+    cube, aggs = with_past(w, case["poolsize"], case.get("past", "fresh"), (case.get("sched_seed") or 0) ^ 0xA57)
     res = poolrun.pooled_eval(w, case["poolsize"], case["spec"], script=case["decisions"],
-                              step_cap=case.get("step_cap", 5_000_000))
+                              step_cap=case.get("step_cap", 5_000_000), cube=cube, aggs=aggs)
     judge(PROP, ref, res, w["cube"] + ".calculate")
 
 
@@ -161,7 +197,8 @@ RULE = ("seeded cube workloads (ccube or xcube; 1-3 dimensions of shape (N,), (N
         "together out of count/valid_count/sum/mean [+ stddev/quantile/min/max/covariance/corrcoef for xcube] with "
         "NaN-marked or (values, validity) facts, none/scalar/array weights, both missing policies, three report "
         "formats); per workload one serial reference and K pooled evaluations (pool size 1-16) each under its own "
-        "seeded schedule: run-to-completion with random chunk order, uniform switch probability "
+        "seeded schedule, on brand-new objects or (3 in 7) on a cube and aggregates that were already served or "
+        "interrupted once, serially or pooled: run-to-completion with random chunk order, uniform switch probability "
         "{0.002,0.01,0.05,0.2,1.0}, PCT with 1-3 priority change points, targeted 1-4 pre-empt/resume pairs, burst (a switch at "
         "every instruction inside one window of 30-1000 steps, often at the very start), lockstep (round-robin, 1-13 "
         "instructions each, after per-thread head starts of 0-60 instructions; one schedule per workload is the 'ladder': "
